@@ -26,6 +26,7 @@ EXPLANATION += ' R01.13: a `col_offset`/`end_col_offset` of an AST node (UTF-8 b
 EXPLANATION += " R01.19: in the anchored modules and the shared text utilities no source text is cut with str.splitlines() (it breaks at form feed, \x1c-\x1e, \x85, U+2028/9; rope's and the ast's line numbers count \n only)."
 EXPLANATION += " R01.22: inside the loop over the files of a refactoring no handler swallows an error (a file is never silently left out of a multi-file change)."
 EXPLANATION += " R01.23: Rename adds the move of a module's file only under a test that the renamed word is the module's own name.  R01.24: no strip / lstrip / rstrip call in rope has an argument that spells an affix (`.py`)."
+EXPLANATION += " R01.12: the comprehension scope seeds its table from what its parent propagates to nested scopes (nothing for a class body), never from all names of the parent."
 ASSUMPTIONS = ["scope classes are the subclasses of rope.base.pyscopes.Scope found in the working tree"]
 
 SCOPE = "rope.base.pyscopes.Scope"
